@@ -218,7 +218,7 @@ Proof.
   unfold closer_done in Hnd.
   destruct (cp s) eqn:Ec; cbn [in_crit wants] in *.
   - (* CStart *) exists LCloser. cbn [step]. unfold closer_step. rewrite Ec, Hwp, Hwh. cbn. eexists; reflexivity.
-  - exists LCloser. cbn [step]. unfold closer_step. rewrite Ec. eexists; reflexivity.
+  - exists LCloser. cbn [step]. unfold closer_step. rewrite Ec. destruct (kind0 s && conn_done s); eexists; reflexivity.
   - (* CLogoutWait: the one-minute context expires at the latest *)
     exists LLogoutTimeout. cbn [step]. rewrite Ec. eexists; reflexivity.
   - exists LCloser. cbn [step]. unfold closer_step. rewrite Ec. eexists; reflexivity.
